@@ -41,6 +41,8 @@ type nodeMonitor struct {
 	// partial: the kernel is at rest between two passes of its controlled select but inputs may still be pending:
 	// only the clauses that do not depend on every input having been consumed are evaluated.
 	partial bool
+	// delay timers cancelled before they fired whose justification (a way out of the step) has not been seen yet
+	cancelled []cancelledTimer
 
 	finSaved   map[uint64]bool
 	finReq     map[uint64]string // height -> hash requested
@@ -62,6 +64,14 @@ type roundMon struct {
 	precommitDelayFired bool
 	finRequested   bool
 	considerAfterPrevote bool
+}
+
+type cancelledTimer struct {
+	kind string
+	h    uint64
+	r    uint32
+	pos  int
+	step int
 }
 
 func newNodeMonitor(o *oracles, n *node) *nodeMonitor {
@@ -297,6 +307,11 @@ func (m *nodeMonitor) check() {
 					o.violate("C06", "delay-timer-started-by-sub-majority:"+e.a, fmt.Sprintf("%s timer of %d/%d started although the distinct validators present hold only %d < %d", e.a, e.h, e.r, pow, majority(w.total(e.h))))
 				}
 			}
+		case "timer-cancel":
+			// C12: a delay timer is cancelled only on the way out of its step.
+			if e.a == "prevote-delay" || e.a == "precommit-delay" {
+				m.cancelled = append(m.cancelled, cancelledTimer{kind: e.a, h: e.h, r: e.r, pos: m.pos, step: e.step})
+			}
 		case "timer-fire":
 			rm := m.rd(e.h, e.r)
 			if e.a == "prevote-delay" {
@@ -387,6 +402,35 @@ func (m *nodeMonitor) quiescent() {
 	}
 	ts := n.outstandingTimers()
 	o.res.Count("quiescent_points_monitored", 1)
+	if !m.partial {
+		// A cancelled prevote-delay / precommit-delay timer: the machine must be on its way out of that step - the
+		// precommit decision requested, a finalization requested, another timer of the round started, or the round left.
+		keep := m.cancelled[:0]
+		for _, ct := range m.cancelled {
+			justified := false
+			for _, e := range n.trace[ct.pos+1:] {
+				switch {
+				case e.kind == "call" && e.a == "decide" && e.h == ct.h && e.r == ct.r && ct.kind == "prevote-delay":
+					justified = true
+				case e.kind == "fin-req" && e.h == ct.h:
+					justified = true
+				case e.kind == "timer-start" && e.h == ct.h && e.r == ct.r:
+					justified = true
+				case e.kind == "smstore" || e.kind == "start" || (e.kind == "call" && e.a == "enter"):
+					justified = true
+				}
+			}
+			if justified {
+				continue
+			}
+			if m.smH == ct.h && m.smR == ct.r {
+				o.violate("C12", "delay-timer-cancelled-while-still-waiting:"+ct.kind, fmt.Sprintf("step %d: the %s timer of %d/%d was cancelled before it fired, and the state machine neither asked for its precommit decision, nor asked to finalize, nor started another timer, nor left the round: it waits in a timed step without a timer", ct.step, ct.kind, ct.h, ct.r))
+				continue
+			}
+			keep = append(keep, ct)
+		}
+		m.cancelled = keep
+	}
 	if len(ts) > 1 {
 		var d []string
 		for _, t := range ts {
